@@ -1009,3 +1009,48 @@ def s_get_replacement(ctx):
 RREL2 = "onnxscript/rewriter/_rewrite_rule.py"
 SCENARIOS.append(Scenario("C07.get_replacement", s_get_replacement, [(RREL2, "ReplacementPatternFunction.get_replacement")], kind="bounded",
                           bound="eight kinds of answers of the replacement function; two bindings"))
+
+
+def s_rule_set_init(ctx):
+    """RewriteRuleSet.__init__ / RewriteRule.apply_to_model: the set holds the given rules in order — with commute=True every commuted variant
+    of every rule, in order —, refuses an empty list, and schedules the removal of unused nodes iff SOME rule of the (expanded) set keeps the
+    matched nodes; RewriteRule.apply_to_model is the one-rule set with the same commute flag and forwards verbose / tracer."""
+    from onnxscript.rewriter import _rewrite_rule as rr
+    I = Interp(ctx)
+    n = ctx.choose(4, "number of rules")
+    commute = ctx.choose(2, "commute") == 1
+    rules, variants_of, keep = [], {}, {}
+    for i in range(n):
+        r = SObj(rr.RewriteRule, f"rule{i}")
+        nv = 1 + ctx.choose(2, f"rule{i} has a commuted variant")
+        vs = []
+        for j in range(nv):
+            v = r if j == 0 else SObj(rr.RewriteRule, f"rule{i}_variant{j}")
+            k = ctx.choose(2, f"rule{i} keeps the matched nodes") == 1 if j == 0 else keep[id(r)]
+            v.fields["remove_nodes"] = not k
+            keep[id(v)] = k
+            vs.append(v)
+
+        def commute_fn():
+            raise AssertionError
+        I.models[commute_fn] = lambda interp, vs=vs: list(vs)
+        r.fields["commute"] = commute_fn
+        variants_of[id(r)] = vs
+        rules.append(r)
+    rs = SObj(rr.RewriteRuleSet, "ruleset")
+    P = "C07.rule_set."
+    CLS = "C07: 'each rule is tried on each node'; commute=True: 'the matches are exactly those of the pattern under swaps of the operands of commutative operators' (C06)"
+    try:
+        I.call(I.getattr(rs, "__init__"), [rules], {"commute": commute})
+    except PyRaise as e:
+        ctx.check(P + "refuses_only_an_empty_rule_list", n == 0 and isinstance(e.exc, ValueError), CLS)
+        return
+    ctx.check(P + "an_empty_rule_list_is_refused", n > 0, CLS)
+    want = [v for r in rules for v in (variants_of[id(r)] if commute else [r])]
+    got = list(rs.fields["rules"])
+    ctx.check(P + "holds_the_rules_or_all_their_commuted_variants_in_order", len(got) == len(want) and all(a is b for a, b in zip(got, want)), CLS)
+    ctx.check(P + "unused_nodes_are_removed_iff_some_rule_keeps_the_matched_nodes", rs.fields["remove_unused_nodes"] is any(keep[id(v)] for v in want),
+              "C07: 'no dangling or duplicated values remain' - a rule that keeps the matched nodes leaves them for dead-code elimination")
+
+
+SCENARIOS.append(Scenario("C07.rule_set.init", s_rule_set_init, [(RREL2, "RewriteRuleSet.__init__")], kind="bounded", bound="0-3 rules, each with or without one commuted variant"))
